@@ -18,7 +18,13 @@ KEEP = []  # RecordTensor only weak-references its owner
 CLS = ["DeltaCurrent", "DeltaPlusCurrent", "SingleExponentialCurrent", "DoubleExponentialCurrent"]
 
 
-def syn_ctor(sy, inplace=None):
+OMIT_KW = {"mode": ("interp_mode", "spike_interp_mode"), "tol": ("interp_tol",), "cur_ob": ("current_overbound",),
+           "spk_ob": ("spike_overbound",), "inplace": ("inplace",)}
+
+
+def syn_ctor(sy, inplace=None, omit=()):
+    """omit: optional arguments of partialconstructor that are NOT passed (the library's defaults apply; the harness
+    expects the documented ones)"""
     k = sy["cls"]
     mode = ["previous", "nearest"][sy["mode"]]
     kw = dict(spike_charge=sy["Q"], interp_tol=sy["tol"], current_overbound=sy["cur_ob"],
@@ -32,6 +38,9 @@ def syn_ctor(sy, inplace=None):
     if k == 3:
         kw["tc_decay"] = sy["tau"]
         kw["tc_rise"] = sy["tr"]
+    for o in omit:
+        for name in OMIT_KW.get(o, ()):
+            kw.pop(name, None)
     return getattr(neural, CLS[k]).partialconstructor(**kw)
 
 
@@ -46,7 +55,11 @@ def build(case, delayed=True, bias=None, cur=None):
     kind = case["conn"]
     delay = case["delay"] if delayed else None
     hasb = (case["b"] is not None) if bias is None else bias
-    common = dict(synapse=syn_ctor(case["syn"]), bias=hasb, delay=delay, batch_size=case["B"])
+    omit = tuple(case.get("omit", ())) if delayed else ()       # only the connection under test (and its twins) omits
+    common = dict(synapse=syn_ctor(case["syn"], omit=omit), bias=hasb, delay=delay, batch_size=case["B"])
+    for o in omit:
+        if o in ("bias", "delay", "batch_size"):
+            common.pop(o)
     dt = case["dt"]
     if kind == "dense":
         c = neural.LinearDense(tuple(case["in"]), tuple(case["out"]), dt, **common)
@@ -124,6 +137,8 @@ def restore_into_twin(c, case, cur, op):
     import copy
     sd = copy.deepcopy(c.state_dict())
     twin = build(case, cur=cur)
+    if twin.batchsz != cur["B"]:          # batch_size omitted at construction, changed by the setter since
+        twin.batchsz = cur["B"]
     if op[1] == "used":
         g = torch.Generator().manual_seed(int(op[3]))
         with torch.no_grad():
